@@ -4,7 +4,7 @@ from tools.harness import common, lr, gen, streams
 
 ID = 'C19'
 D = 'mindsdb'
-TARGETS = ['MindsVerif.Props.C19']
+TARGETS = ['MindsVerif.Props.C19', 'MindsVerif.Props.C19Lex']
 _P = 'MindsVerif.Props.C19.'
 THEOREMS = [_P + n for n in (
     # the part of the full statement that is proved
@@ -27,7 +27,11 @@ THEOREMS = [_P + n for n in (
     # history: the one-piece variant (reached only through errorLocationV_true_eq) and regression theorems
     'C19_caret_partial', 'C19_caret_source', 'C19_eof_caret', 'C19_variant_agrees', 'C19_caret_partial_v',
     'C19_eof_caret_v', 'C19_regress_rewritten_value_short_caret', 'C19_regress_onepiece_newline_in_token',
-    'C19_outside_layout_truncation')]
+    'C19_outside_layout_truncation')] + [
+    # round 6: the hypothesis SrcChain is what the lexer MODEL produces (Props/C19Lex.lean over Model/SlyLex + Gen/LexRe_mindsdb)
+    'MindsVerif.Props.C19Lex.lexed_srcChain', 'MindsVerif.Props.C19Lex.lexed_err_srcChain',
+    'MindsVerif.Props.C19Lex.lexed_srcChain_mindsdb', 'MindsVerif.Props.C19Lex.chain_srcChain',
+    'MindsVerif.Props.C19Lex.lexed_example']
 ASSUME = [
     'ErrorHandling.error_location (live part-by-part variant) / make_suggestion / process and MindsDBLexer.error are '
     'hand-modelled (MindsVerif.Err); tie = stream `err-message` of this run (model message == real message, byte for byte)',
@@ -36,6 +40,9 @@ ASSUME = [
     'separators inside tokens / comments and as the offending character) + the extractor flags ErrLex.lexLineSeps = [10], '
     'ErrLex.lexCaretOnChar; WHICH offset the lexer reports is an input taken from the real LexError (lexer not modelled); repr of the '
     'character is exact below U+0100 and for U+2028/9, other code points are assumed printable (non-printable ones are skipped in the stream)',
+    'round 6: SrcChain is PROVED for the output of the regex-level lexer model (lexed_srcChain, every text) decorated as '
+    'MindsDBLexer.tokenize decorates its tokens (value = text[index:end], lineno = 1 + newlines before index); those two decoration '
+    'facts and the token boundaries are tied to the real lexer by the stream slylex (run by C02; every token of every text). Before: '
     'the lexer is not modelled: its semantics (value = source slice, lineno = 1 + newlines before index, tokens in text order '
     'without overlap) is the hypothesis SrcChain of C19_full_caret_holds; it is checked on every token list of the stream '
     '(obligations `probe:value-is-source`, `probe:lineno-uniform`, `probe:layout-invariant`) and pinned by the extractor flags '
